@@ -9,7 +9,7 @@ import re
 from extract_core import extractor, read, strip_c_comments
 
 
-def find_function(src, name):
+def find_function(src, name, with_params=False):
     """return the body text (between the outer braces) of function `name`"""
     src = strip_c_comments(src)
     # string and character literals carry no structure: blank them
@@ -40,9 +40,50 @@ def find_function(src, name):
                 elif src[e] == "}":
                     depth -= 1
                     if depth == 0:
+                        if with_params:
+                            return src[i + 1:j], src[k + 1:e]
                         return src[k + 1:e]
                 e += 1
     raise KeyError("function %s not found" % name)
+
+
+def declared_types(params, body):
+    """variable -> (type text, is_pointer) from the parameter list and the declarations of the body (`T * v;`, `T v;`,
+    `T v[N];` — arrays are left out: sizeof of an array is not sizeof of its element type)"""
+    types = {}
+    decls = [d.strip() for d in split_args(params)]
+    for line in body.split(";"):
+        t = line.strip()
+        # a declaration: type words, optional '*', identifier, nothing else (no call, no assignment)
+        if re.match(r"^(?:const\s+|struct\s+|unsigned\s+|static\s+)*[A-Za-z_]\w*(?:\s+[A-Za-z_]\w*)?\s*\**\s*[A-Za-z_]\w*$", t) and "return" not in t and "goto" not in t:
+            decls.append(t)
+    for d in decls:
+        m = re.match(r"^(.*?)(\**)\s*([A-Za-z_]\w*)$", d.strip(), re.S)
+        if not m or "[" in d:
+            continue
+        ty = re.sub(r"\b(const|static)\b", "", m.group(1)).strip()
+        ty = re.sub(r"\s+", " ", ty)
+        if not ty or ty in KEYWORDS and ty not in ("void",):
+            pass
+        stars = m.group(2) + ("*" if ty.endswith("*") else "")
+        ty = ty.rstrip("* ").strip()
+        if ty:
+            types[m.group(3)] = (ty, len(stars))
+    return types
+
+
+def normalise_sizeof(arg, types):
+    """`sizeof(*v)` with `T * v` -> `sizeof(T)`; `sizeof(v)` with `T v` -> `sizeof(T)` (what the expression means)"""
+    def rep(m):
+        star, v = m.group(1), m.group(2)
+        if v in types:
+            ty, nptr = types[v]
+            if star and nptr == 1:
+                return "sizeof(%s)" % ty
+            if not star and nptr == 0:
+                return "sizeof(%s)" % ty
+        return m.group(0)
+    return re.sub(r"sizeof\s*\(\s*(\*?)\s*([A-Za-z_]\w*)\s*\)", rep, arg)
 
 
 def split_args(s):
@@ -277,8 +318,10 @@ def wipe_tables(repo):
     txt += "import Percival.Model.WipeLang\nnamespace Percival.Gen.Wipe\nopen Percival.Model.WipeLang\n\n"
     for lname, f, cname in FUNCS:
         try:
-            body = find_function(read(repo, f), cname)
-            sts = statements(body)
+            params, body = find_function(read(repo, f), cname, with_params=True)
+            types = declared_types(params, body)
+            sts = [(st[0], st[1], st[2], [normalise_sizeof(a, types) for a in st[3]], st[4]) if st[0] == "call" else st
+                   for st in statements(body)]
         except Exception as e:
             msgs.append("%s:%s: %r" % (f, cname, e))
             sts = []
